@@ -1116,3 +1116,45 @@ func BoolReturnsFrom(starts []Edge, idx int) []ErrReturn {
 	})
 	return out
 }
+
+// ResolveAt refines a phi by the paths on which control can be in block at:
+// when only one operand's entering edge can feasibly lead there (the others
+// are cut off by a flag tested in between), the phi is that operand there.
+func ResolveAt(v ssa.Value, at *ssa.BasicBlock) ssa.Value {
+	for depth := 0; depth < 4; depth++ {
+		p, ok := v.(*ssa.Phi)
+		if !ok || at == nil {
+			return v
+		}
+		j := p.Block()
+		if j == at || j.Parent() != at.Parent() || !j.Dominates(at) || LoopOf(j) != nil {
+			return v
+		}
+		var got ssa.Value
+		for i, pred := range j.Preds {
+			idx, cnt := -1, 0
+			for k, s := range pred.Succs {
+				if s == j {
+					idx = k
+					cnt++
+				}
+			}
+			if cnt != 1 {
+				return v
+			}
+			reach, _ := ReachFromEdges([]Edge{{From: pred, Idx: idx}}, nil)
+			if !reach[at] {
+				continue
+			}
+			if got != nil && got != p.Edges[i] {
+				return v
+			}
+			got = p.Edges[i]
+		}
+		if got == nil {
+			return v
+		}
+		v = got
+	}
+	return v
+}
